@@ -132,9 +132,13 @@ struct TreeWorld : World {
         case T_GET: op.d = (int)r.below(2) | ((str ? (int)r.below(3) : 0) << 1); break;
         case T_REMOVE: op.d = str ? (int)r.below(2) : 0; break;
         case T_WALK:
-            op.a = (prop == "C03") ? r.pick(std::vector<int>{1, 1, 1, 2, 3, 100, 126, 127, 128, 129, 254, 255, 256, 257, 300}) : 1;
+            op.a = (prop == "C03" || (prop == "C04" && r.chance(1, 2))) ? r.pick(std::vector<int>{1, 1, 1, 2, 3, 100, 126, 127, 128, 129, 254, 255, 256, 257, 300}) : 1;
             op.d = (int)r.below(2); break;
-        case T_ABANDON: op.a = r.range(1, 4); op.d = (int)r.below(2); break;
+        case T_ABANDON:
+            op.a = r.range(1, 4); op.d = (int)r.below(2);
+            // b = how many walks in a row are started and abandoned (each consumes one traversal epoch)
+            op.b = (prop == "C03" || prop == "C04") ? r.pick(std::vector<int>{1, 1, 1, 1, 2, 3, 60, 126, 127, 128, 200, 252, 253, 254, 255, 256, 257}) : 1;
+            break;
         case T_NEAREST: op.a = (int)r.below((uint32_t)(Uc * 2 + 2)); op.d = (int)r.below(2) | ((r.chance(2, 3) ? 1 : 0) << 1); op.c = r.chance(1, 5) ? r.range(1, 3) : 0; break;
         case T_BULK: op.a = (int)r.below(4); op.b = r.range(2, Uc); break;
         default: break;
@@ -289,8 +293,15 @@ struct TreeWorld : World {
         case T_ABANDON: {
             bool stopped = false;
             walk_failed = false;
-            Bytes cur = walk(x, op.d & 1, std::max(1, op.a), &stopped);
-            if (walk_failed) return R_fail(cur);
+            Bytes cur;
+            for (int rep = 0; rep < std::max(1, op.b); rep++) {
+                stopped = false;
+                Bytes c2 = walk(x, (op.d & 1) && rep == 0, std::max(1, op.a), &stopped);
+                if (walk_failed) return R_fail(c2);
+                if (rep == 0) cur = c2;
+                else if (c2 != cur) { cur += "DIFF@abandoned-walk" + num(rep + 1) + ":" + c2; break; }
+            }
+            if (op.b > 100) x.st.add("probe.many_abandoned_walks");
             if (stopped) { unfinished = true; x.st.add("probe.walk_abandoned"); }
             return R_ok(cur);
         }
@@ -450,7 +461,7 @@ struct TreeWorld : World {
         case T_GET: snprintf(b, sizeof b, "get key#%d=%s newmem=%d api%d", op.a, hexs(key(op.a), 12).c_str(), op.d & 1, (op.d >> 1) & 3); break;
         case T_REMOVE: snprintf(b, sizeof b, "remove key#%d=%s", op.a, hexs(key(op.a), 12).c_str()); break;
         case T_WALK: snprintf(b, sizeof b, "%d complete walk(s) newmem=%d", std::max(1, op.a), op.d & 1); break;
-        case T_ABANDON: snprintf(b, sizeof b, "walk abandoned after %d element(s)", std::max(1, op.a)); break;
+        case T_ABANDON: snprintf(b, sizeof b, "%d walk(s) started and abandoned after %d element(s)", std::max(1, op.b), std::max(1, op.a)); break;
         case T_NEAREST: snprintf(b, sizeof b, "find_nearest probe#%d=%s newmem=%d continue=%d limit=%d", op.a, hexs(probe(op.a), 12).c_str(), op.d & 1, (op.d >> 1) & 1, op.c); break;
         case T_BULK: snprintf(b, sizeof b, "bulk %s of %d keys in %s order", op.a < 2 ? "put" : "remove", op.b, (op.a & 1) ? "descending" : "ascending"); break;
         default: return World::render(op);
